@@ -51,6 +51,15 @@ var solvers = []solverSpec{
 	{"z3-new/ematching/seed99", func(t int, f string) []string {
 		return []string{"z3-new", "-smt2", fmt.Sprintf("-T:%d", t), "smt.mbqi=false", "smt.random_seed=99", "sat.random_seed=99", "smt.restart_strategy=0", f}
 	}},
+	{"z3-new/ematching/seed2", func(t int, f string) []string {
+		return []string{"z3-new", "-smt2", fmt.Sprintf("-T:%d", t), "smt.mbqi=false", "smt.random_seed=2", "sat.random_seed=2", f}
+	}},
+	{"z3-new/ematching/seed3", func(t int, f string) []string {
+		return []string{"z3-new", "-smt2", fmt.Sprintf("-T:%d", t), "smt.mbqi=false", "smt.random_seed=3", "sat.random_seed=3", f}
+	}},
+	{"z3-new/ematching/seed5", func(t int, f string) []string {
+		return []string{"z3-new", "-smt2", fmt.Sprintf("-T:%d", t), "smt.mbqi=false", "smt.random_seed=5", "sat.random_seed=5", "smt.phase_selection=5", f}
+	}},
 	{"z3-new", func(t int, f string) []string { return []string{"z3-new", "-smt2", fmt.Sprintf("-T:%d", t), f} }},
 	{"cvc5", func(t int, f string) []string {
 		return []string{"cvc5", "--lang=smt2", fmt.Sprintf("--tlimit=%d", t*1000), "--strings-exp", f}
